@@ -268,7 +268,13 @@ def handle(job):
     if "c" in emitted:
         incs = [os.path.join(d, "out_c"), os.path.join(repo_root(), "lib", "c")]
         base = os.path.splitext(job["main"])[0]
-        items = [(nm, job["kinds"][nm]) for nm in job.get("c_whole", [])]
+        whole = job.get("c_whole", [])
+        if whole == "auto":      # every boolean / string, and the integers inside the C range
+            main_consts = {e[0]: e for e in res["consts"][job["main"]]}
+            whole = [nm for nm in job["consts"] if nm in main_consts and
+                     (main_consts[nm][1] != "int" or abs(int(main_consts[nm][2])) <= 2 ** 63 - 1)]
+            job["kinds"] = dict(job["kinds"], **{nm: main_consts[nm][1] for nm in whole})
+        items = [(nm, job["kinds"][nm]) for nm in whole]
         if items:
             res["c_whole"] = run_c(d, "whole", c_program(f'#include "{base}_bp.h"', items), incs, items)
         if job.get("c_slices") and "c_slices" in emitted:
